@@ -330,7 +330,7 @@ func sectorClass(n int) string {
 	}
 }
 
-const faultRule = "fault enumeration inside generated scenarios: a scenario of 1..20 steps (same generator and oracle as filepool-model) is run fault-free while numbering every fallible call the pool makes (device ReadAt/WriteAt, hole source ReadAt/GetNextRegionOffset/Truncate/Close, base-pool NewFile under the quota layer, AllocateContiguous), then re-run once per (call index x fault kind: error, short transfer, injected exhaustion, one-sector allocation). During the faulted step an error result is accepted and the model follows the reported counts; every other step is checked exactly; after each run everything is closed and the full capacity (sectors, file quota, byte quota) must be obtainable again. One evaluation = one (scenario, fault) run. Non-trivial: the injected fault surfaced as an error of the API call; distinct by hash of scenario+fault"
+const faultRule = "fault enumeration inside generated scenarios: a scenario of 1..20 steps (same generator and oracle as filepool-model) is run fault-free while numbering every fallible call the pool makes (device ReadAt/WriteAt, hole source ReadAt/GetNextRegionOffset/Truncate/Close, base-pool NewFile under the quota layer, AllocateContiguous), then re-run once per (call index x fault kind: error, short transfer, injected exhaustion, one-sector allocation). During the faulted step an error result is accepted and the model follows the reported counts; a failed Truncate must leave the file in one of the enumerated permissible states (untouched, or - only when the hole source's Truncate is what failed - everything done except that), compared byte for byte; every other step is checked exactly; after each run everything is closed and the full capacity (sectors, file quota, byte quota) must be obtainable again. One evaluation = one (scenario, fault) run. Non-trivial: the injected fault surfaced as an error of the API call; distinct by hash of scenario+fault"
 
 func TestC15FilePoolFaults(t *testing.T) {
 	rec := simkit.NewRecorder(t, "C15", "filepool-faults", faultRule)
@@ -382,8 +382,11 @@ func TestC15FilePoolFaults(t *testing.T) {
 				if e.st.faultSurfaced {
 					labels = append(labels, "fault-surfaced")
 				}
-				if e.st.poisoned {
-					labels = append(labels, "truncate-failed-halfway")
+				if e.st.truncFailedUntouched {
+					labels = append(labels, "truncate-failed:file-untouched")
+				}
+				if e.st.truncFailedHalfDone {
+					labels = append(labels, "truncate-failed:hole-source-not-truncated")
 				}
 				rec.Case(fsc, e.st.faultSurfaced, labels...)
 			}
